@@ -150,10 +150,40 @@ pub fn run(ctx: &Ctx, st: &mut Stats) -> Vec<Violation> {
     v
 }
 
+/// deterministic edge cases for the Miri engine: cube corners / half levels / values just above 1
+/// through every encoder entry at depths 8 and 16, both ranges, YCgCo and BT.709
+pub fn edge_corpus(prop: &str) -> Vec<Value> {
+    let mut out = Vec::new();
+    let mut px: Vec<[f32; 3]> = Vec::new();
+    for r in [0.0f32, 1.0] {
+        for g in [0.0f32, 1.0] {
+            for b in [0.0f32, 1.0] {
+                px.push([r, g, b]);
+            }
+        }
+    }
+    px.extend([[0.5, 0.5, 0.5], [1.000_01, 1.000_01, 1.000_01], [1.095_88, 1.095_88, 1.095_88], [f32::NAN, 0.5, 0.5], [f32::INFINITY, 0.0, f32::NEG_INFINITY], [0.5, 0.5, 1.5]]);
+    let n = px.len();
+    for (ki, kind) in [Kind::Rgb, Kind::Lin].into_iter().enumerate() {
+        for m in [yuvxyb::MatrixCoefficients::YCgCo, yuvxyb::MatrixCoefficients::BT709] {
+            for depth in [8u8, 16] {
+                for full in [false, true] {
+                    let c = cfg(m, TC::BT1886, CP::BT709, depth, full, (0, 0));
+                    // op indices: Rgb -> [.., RgbToYuv by_ref u8 (2), by_ref u16 (3), ..]; Lin -> [.., LinToYuv u8 (3), u16 (4)]
+                    let op = if ki == 0 { if depth == 8 { 2u8 } else { 3 } } else if depth == 8 { 3 } else { 4 };
+                    let f = FloatCase { kind, w: n, h: 1, cfg: c, data: Data::Explicit(px.clone()), ops: vec![op] };
+                    out.push(f.to_json(prop));
+                }
+            }
+        }
+    }
+    out
+}
+
 /// cases for the Miri engine (small float histories, special values emphasised)
 pub fn corpus(seed: u64, n: usize) -> Vec<Value> {
     let strat = float_strategy();
-    let mut out = Vec::new();
+    let mut out = edge_corpus("C13");
     let mut round = 0u64;
     while out.len() < n && round < 64 {
         for f in sample_strategy(&strat, mix64(seed ^ round ^ 0x13), n) {
